@@ -140,7 +140,7 @@ pub fn hot_cases() -> Vec<HotCase> {
 }
 
 pub fn parts() -> Vec<Box<dyn DynPart>> {
-    vec![Box::new(OneHot), Box::new(RandomImages)]
+    vec![Box::new(OneHot), Box::new(RandomImages), Box::new(crate::props::c03::OneCodec("c02"))]
 }
 
 pub fn run(run: &mut Run) {
@@ -170,4 +170,8 @@ pub fn run(run: &mut Run) {
     run.enumerate(&OneHot, n, false, |i| Some(hot[i as usize].clone()));
     let n = run.budget(73 * 2 * 500, 73 * 2 * 20_000);
     run.prop(&RandomImages, tape_strategy(), n);
+    // the layout must not depend on what the codec was asked to encode before (a connection keeps one codec): sequences with
+    // refused packets among them, every frame compared with a fresh codec's
+    let n = run.budget(30_000, 1_500_000);
+    run.prop(&crate::props::c03::OneCodec("c02"), crate::props::c03::seq_strategy(), n);
 }
